@@ -352,6 +352,18 @@ theorem shape_clientDoRequest : Gen.C06.clientDoRequest_shape =
 theorem audited_shape_ParseSessionIDAndPacketID : Gen.C06.ParseSessionIDAndPacketID_shape =
     ["call Uint64", "call Uint64", "b[8:]"] := rfl
 
+theorem audited_shape_dnsParseMsg : Gen.C06.dnsParseMsg_shape =
+    ["r.a[:0]", "r.aaaa[:0]"] := rfl
+
+theorem audited_shape_dnsDoTCP : Gen.C06.dnsDoTCP_shape =
+    ["call Uint16"] := rfl
+
+theorem audited_shape_dnsSendQueries : Gen.C06.dnsSendQueries_shape =
+    ["qBuf[2:2]", "qBuf[q6PktStart:q6PktStart]", "qBuf[:2]", "qBuf[q4PktEnd:q6PktStart]", "call PutUint16", "call PutUint16", "qBuf[:q6PktEnd]"] := rfl
+
+theorem audited_shape_httpClientConnect : Gen.C06.httpClientConnect_shape =
+    ["if resp.StatusCode < 200 || resp.StatusCode >= 300 => return", "if br.Buffered() > 0 => return"] := rfl
+
 end SSV.C06
 
 #print axioms SSV.C06.no_panic_addrPortFromSlice
@@ -440,3 +452,7 @@ end SSV.C06
 #print axioms SSV.C06.shape_clientDoUsernamePasswordAuth
 #print axioms SSV.C06.shape_clientDoRequest
 #print axioms SSV.C06.audited_shape_ParseSessionIDAndPacketID
+#print axioms SSV.C06.audited_shape_dnsParseMsg
+#print axioms SSV.C06.audited_shape_dnsDoTCP
+#print axioms SSV.C06.audited_shape_dnsSendQueries
+#print axioms SSV.C06.audited_shape_httpClientConnect
